@@ -337,7 +337,7 @@ def index_lambda_to_high_level_op(expr: IndexLambda) -> HighLevelOp:
                 inner_expr.parameters, expr.bindings, expr.shape
             )
             assert isinstance(ary, Array)
-            return ZerosLikeOp(ary)
+            return ZerosLikeOp(inner_expr.function.name, ary)
         except UnknownIndexLambdaExpr:
             pass
 
